@@ -94,6 +94,13 @@ ColDomain(c) ==
       s1 == ApplyBounds(s0, c.bounds)
       s2 == IF ~s1.hasLower /\ IsFin(s1.hi) /\ RLess(s1.hi, Zero) THEN [s1 EXCEPT !.lo = NInf] ELSE s1
   IN [discrete |-> s2.kind \in {"integer", "binary"}, lo |-> s2.lo, hi |-> s2.hi]
+\* MPS readers disagree about an upper bound of exactly 0 given without any lower bound: some open the lower bound as
+\* for a negative one, others (CPLEX) keep the default 0.  The property speaks of a NEGATIVE upper bound only, so for
+\* this one input both readings are accepted.
+ColDomains(c) ==
+  LET d == ColDomain(c)
+      s1 == ApplyBounds([kind |-> "continuous", lo |-> Zero, hi |-> PInf, hasLower |-> FALSE], c.bounds) IN
+  IF ~s1.hasLower /\ s1.hi = Zero THEN {d, [d EXCEPT !.lo = NInf]} ELSE {d}
 \* linear expression of a row over column NAMES: function name -> Rat (zero entries kept out)
 RowCoefs(m, i) == LET js == { j \in DOMAIN m.cols : \E k \in DOMAIN m.cols[j].coefs : m.cols[j].coefs[k][1] = i } IN
   [ n \in { m.cols[j].name : j \in js } |->
@@ -148,6 +155,6 @@ MpsLoadClauses(m, raw, byId) ==
     constraints |-> namesOK => (gotCons = wantCons /\ sameCounts /\ DOMAIN I.removed = {} /\ I.active = DOMAIN I.cons),
     constraint_names |-> (namesOK /\ ~byId) => \A i \in plainRows : \E c \in conByName(m.rows[i].name) :
                             gotOf(c) = conv(M.cons[i][1]),
-    domains |-> namesOK => \A n \in DOMAIN n2i : LoadedDomain(VarOf(raw, n2i[n])) = M.domains[n],
+    domains |-> namesOK => \A n \in DOMAIN n2i : LoadedDomain(VarOf(raw, n2i[n])) \in ColDomains(m.cols[CHOOSE j \in DOMAIN m.cols : m.cols[j].name = n]),
     unique_ids |-> UniqueVarIds(raw) /\ UniqueConIds(raw) ]
 =============================================================================
